@@ -35,7 +35,10 @@ def handle (case0 impl : List String) : Verdict :=
     match runModel s io with
     | .panic msg => v.withDiff true s!"model panics ({msg}), implementation does not"
     | .ok (t, _) =>
-      let (bad, _, _) := compareBuffers s io t masked
+      -- C02 is about panics, writes outside the viewport and NaN, not about value accuracy: scenes at the edge of
+      -- its quantifier (far/near = 1000, geometry at the near plane) lose a few 0.1 % of depth to f32 rounding of
+      -- the clip-created vertices, so values are compared at 2 % (coverage is compared exactly)
+      let (bad, _, _) := compareBuffers s io t masked (1/50) 50
       match bad with
       | some msg => v.withDiff true msg
       | none => v
